@@ -381,7 +381,8 @@ theorem psd_tone_averages (n k avg : ℕ) (A p : ℝ) (havg : 0 < avg) (hk : 0 <
     (hkn : 2 * k < n) (s : ℕ → ℝ)
     (hs : ∀ r j, r < avg → j < n → s (r * n + j) = toneSig n k A p j) :
     psd (avg * n) avg s k = |A| := by
-  have hm : avg * n / avg = n := Nat.mul_div_cancel_left n havg
+  have hm : trimLen (avg * n) avg / avg = n := by
+    rw [trimLen, Nat.mul_div_cancel_left n havg, Nat.mul_div_cancel n havg]
   have havg' : (avg : ℝ) ≠ 0 := Nat.cast_ne_zero.2 havg.ne'
   unfold psd
   simp only [hm]
